@@ -131,3 +131,7 @@ package gem
 //@ func containsLetter
 //@   ensures found: result ==> (exists i int :: 0 <= i && i < len(s) && ((s[i] >= 'a' && s[i] <= 'z') || (s[i] >= 'A' && s[i] <= 'Z')))   [C13]
 //@   ensures none: !result ==> (forall i int :: 0 <= i && i < len(s) ==> !((s[i] >= 'a' && s[i] <= 'z') || (s[i] >= 'A' && s[i] <= 'Z')))   [C13]
+
+// ---- the registered name (the VERS evaluator and the CLI select behaviour by it)
+//@ func (*Ecosystem).Name
+//@   ensures result == "gem"   [C04 C15 C17]
